@@ -252,6 +252,30 @@ def run(ctx, R, tier):
         if o.rule == "C05-R8" and o.key.split("|")[-1] in ("Pyro5.server", "Pyro5.serializers", "Pyro5.client", "Pyro5.core", "Pyro5.errors"):
             R.add("C07-R3", "definite-assignment|" + o.key.split("|")[-1], o.desc + " (a NameError raised while an exception is being reported replaces it)", o.ok, o.loc, o.detail)
 
+    # the error reply: the traceback text is attached to whatever exception object is serialised, and the reply is really sent
+    ser_fn = ctx.fn("Pyro5.server.Daemon._sendExceptionResponse")
+    scfg = ctx.cfg(ser_fn)
+    tbp = ser_fn.params[5] if len(ser_fn.params) > 5 else None
+    dumps_nodes = [n for c, _ in ctx.cg.calls_of(ser_fn) if isinstance(c.func, ast.Attribute) and c.func.attr == "dumps" for n in ctx.node_of(ser_fn, c)]
+    tb_stores = [(st, n) for st, t, k in stores_in(ser_fn.node) if isinstance(t, ast.Attribute) and t.attr == "_pyroTraceback" and unparse(st.value) == tbp for n in scfg.nodes_for(st)]
+    okt = bool(dumps_nodes) and bool(tb_stores)
+    for dn in dumps_nodes:
+        # the object being dumped (a Name) carries the traceback: a store on that name dominates the dump with no re-binding of the name in between
+        arg = next((c.args[0] for c in calls_in(dn) if isinstance(c.func, ast.Attribute) and c.func.attr == "dumps" and c.args), None)
+        if not isinstance(arg, ast.Name):
+            okt = False
+            continue
+        cands = [n for st, n in tb_stores if isinstance(st.targets[0].value, ast.Name) and st.targets[0].value.id == arg.id and scfg.dominates(n, dn)]
+        rebinds = [n for st, t, k in stores_in(ser_fn.node) if isinstance(t, ast.Name) and t.id == arg.id for n in scfg.nodes_for(st)]
+        if not any(not any(scfg.dominates(c_, rb) and scfg.dominates(rb, dn) for rb in rebinds) for c_ in cands):
+            okt = False
+    R.check(okt, "C07-R3", "_sendExceptionResponse|traceback-attached", "every exception object that is serialised into the error reply carries the remote traceback text", ser_fn.loc(),
+            "an exception object is serialised without `_pyroTraceback = <traceback lines>` having been set on it: the caller gets the exception without the remote traceback")
+    sends_ = [n for c in ctx.calls_to(ser_fn, "Pyro5.socketutil.SocketConnection.send") for n in ctx.node_of(ser_fn, c)]
+    oks = bool(sends_) and scfg.all_paths_pass([scfg.entry], lambda n: n in sends_, edge_ok=lambda e: e.kind != "exc", targets=[scfg.exit])
+    R.check(oks, "C07-R3", "_sendExceptionResponse|reply-sent", "every normal path through _sendExceptionResponse sends the error reply", ser_fn.loc(),
+            "the error reply is built but not sent on some path: the caller waits for an answer that never comes")
+
     gpt = ctx.fn("Pyro5.errors.get_pyro_traceback")
     reads_tb = any(isinstance(n, ast.Call) and isinstance(n.func, ast.Name) and n.func.id == "getattr" and len(n.args) >= 2 and isinstance(n.args[1], ast.Constant)
                    and n.args[1].value == "_pyroTraceback" for n in ast.walk(gpt.node)) or \
